@@ -12,7 +12,7 @@ def bug_native_eq(d):
     """OP_EQ / OP_NE on NATIVE Python operands use Python's == (pinned by tests/xlfunctions/test_operator.py:
     OP_EQ(True, 1) is True): covered only when the observed result is exactly Python's native (in)equality."""
     c = d['case']
-    if 'direct' not in (d.get('clause'), c.get('path')) or c['f'] not in ('OP_EQ', 'OP_NE') or d['observed'].get('t') != 'bool':
+    if not ({'direct', 'numpy'} & {d.get('clause'), c.get('path')}) or c['f'] not in ('OP_EQ', 'OP_NE') or d['observed'].get('t') != 'bool':
         return False
     try:
         x, y = py_native(c['args'][0]), py_native(c['args'][1])
